@@ -187,14 +187,14 @@ UNIT = {
                  "forall|j: K| j != *key ==> final(self).state.tracked(j) == old(self).state.tracked(j) && final(self).state.cost(j) == old(self).state.cost(j)",
                  # "re-admitting a key updates its cost rather than duplicating it"
                  "final(self).state.cost(*key) == cost"],
-     "splices": [{"before": "AdmissionDecision::Admit", "insert": [
+     "splices": [{"before_tail": True, "insert": [
        "proof {",
        "  let k = *key;",
        "  let o = old(self).state.probationary.view(); let q = old(self).state.protected.view();",
        "  lemma_without_keys(o, k); lemma_without_cost(o, k); lemma_cons((k, cost), without(o, k));",
        "  lemma_without_keys(q, k); lemma_without_cost(q, k); lemma_cons((k, cost), without(q, k));",
        "}"]},
-       {"before": "if state.protected.contains(key) {", "insert": [
+       {"at_start": True, "insert": [
        "proof {",
        "  let k = *key;",
        "  let o = old(self).state.probationary.view(); let q = old(self).state.protected.view();",
@@ -206,7 +206,7 @@ UNIT = {
      "requires": ["old(self).state.inv()"],
      "ensures": ["final(self).state.inv()", "!final(self).state.tracked(*key)",
                  "forall|j: K| j != *key ==> final(self).state.tracked(j) == old(self).state.tracked(j) && final(self).state.cost(j) == old(self).state.cost(j)"],
-     "splices": [{"before": "if state.probationary.remove(key).is_some() {", "insert": [
+     "splices": [{"at_start": True, "insert": [
        "proof {",
        "  let k = *key;",
        "  let o = old(self).state.probationary.view(); let q = old(self).state.protected.view();",
